@@ -17,7 +17,9 @@ Inductive opt :=
   | WithTokenBindingRequired
   | WithTokenIntrospection | WithTokenRevocation | WithDCR | WithDCRTokenRotation
   | WithAuthenticationSessionTimeout (secs : Z)
-  | WithResourceIndicatorsRequired | WithIssuerResponseParameter
+  | WithResourceIndicators (r : string) (l : list string)
+  | WithResourceIndicatorsRequired (r : string) (l : list string)
+  | WithIssuerResponseParameter
   | WithPathPrefix (p : string)
   | WithTokenLifetime (secs : Z).      (* the lifetime the harness's TokenOptionsFunc answers *)
 
@@ -25,7 +27,7 @@ Definition base_config (p : profile) : config :=
   mkConfig p [] [] [] [] false 0%Z 300%Z false false 0%Z
            false false "" [] false false 0%Z false false false false false
            false 0%Z false false false false false false false false false
-           false false false false false false false "".
+           false false false false false false false "" false [].
 
 (* appendIfNotIn: prepend the default unless present *)
 Definition append_if_not_in (l : list string) (x : string) : list string := if mem x l then l else x :: l.
@@ -72,7 +74,9 @@ Definition apply_opt (o : opt) (c : config) : config :=
   | WithDCR => c <| cf_dcr := true |>
   | WithDCRTokenRotation => c <| cf_dcr_rotation := true |>
   | WithAuthenticationSessionTimeout s => c <| cf_session_timeout := s |>
-  | WithResourceIndicatorsRequired => c <| cf_resource_required := true |>
+  | WithResourceIndicators r l => c <| cf_resource_enabled := true |> <| cf_resources := append_if_not_in l r |>
+  | WithResourceIndicatorsRequired r l =>
+      c <| cf_resource_required := true |> <| cf_resource_enabled := true |> <| cf_resources := append_if_not_in l r |>
   | WithIssuerResponseParameter => c <| cf_issuer_param := true |>
   | WithPathPrefix p => c <| cf_prefix := p |>
   | WithTokenLifetime s => c <| cf_token_lifetime := s |>
